@@ -103,6 +103,44 @@ def cases(sizes, whole_part=True):
     return C
 
 
+def undecodable_cases():
+    """A body / part whose transfer encoding cannot be decoded: there is no decoded body to hand to the command.  The property: the
+    command is not run, the message is not acted upon (an error: exit status 1, 75 for a delivery on standard input, a diagnostic)."""
+    top = 'maildir "%s/src" {\n\tmatch all exec stdin body { %s "arg" } move "%s/dst"\n}\n' % (R, H, R)
+    att = 'maildir "%s/src" {\n\tmatch all attachment { match header "Content-Type" /pdf/ exec stdin body { %s "part" } } move "%s/dst"\n}\n' % (R, H, R)
+    sin = 'stdin {\n\tmatch all exec stdin body { %s "arg" } move "%s/dst"\n}\n' % (H, R)
+    C = []
+    for tag, bad in (('junk', b'!!!!notbase64$$$\n'), ('short', b'QUJD\nQ\n'), ('pad', b'QUJ=RA==\n')):
+        C.append(Case('undecodable-top-%s' % tag, top, head(2, b'Content-Transfer-Encoding: base64\n') + b'\n' + bad, want=('body',)))
+        C.append(Case('undecodable-stdin-%s' % tag, sin, head(7, b'Content-Transfer-Encoding: base64\n') + b'\n' + bad, want=('body',), stdin_mode=True))
+        p1 = b'Content-Type: text/plain\n\nhello part\n'
+        pb = b'Content-Type: application/pdf\nContent-Transfer-Encoding: base64\n\n' + bad
+        C.append(Case('undecodable-part-%s' % tag, att, mime(5, [p1, pb]), want=('part', 1), pats=[('pdf', '')]))
+    return C
+
+
+def undecodable_run(tools, case):
+    scen = case.spec().build(tools)
+    try:
+        r = scen.run()
+        probs = []
+        if r.helper:
+            probs.append('the command was run %d times although the body cannot be decoded (it read %d bytes)' % (len(r.helper), len(parse_helper(r.helper[0]))))
+        want = 75 if case.stdin_mode else 1
+        if r.status != want:
+            probs.append('exit status %r, expected %d' % (r.status, want))
+        if not r.err.strip():
+            probs.append('no diagnostic')
+        moved = [k for k, v in r.final.items() if k.startswith('dst/') and v[0] == 'file']
+        if moved:
+            probs.append('the message was delivered to %s although an action before the move failed' % moved[:2])
+        if not case.stdin_mode and r.final.get('src/new/1.host') != scen.initial.get('src/new/1.host'):
+            probs.append('the message is no longer as it was in src/new')
+        return {'scenario': case.name, 'status': r.status, 'stderr': r.err[-200:].decode('latin-1').replace(scen.root, R), 'problems': probs}
+    finally:
+        scen.cleanup()
+
+
 def expectations(cs):
     """Fill Case.expected from the specification side of the Lean driver. Returns problems (cases without an expectation)."""
     lines, idx = [], []
@@ -229,6 +267,18 @@ def stage(rep, tools, whole_part=True):
     with cf.ThreadPoolExecutor(min(vlib.NCPU, len(cs))) as ex:
         for res in ex.map(lambda c: sweep(tools, c, rep.tier), cs):
             results.extend(res)
+    # bodies that cannot be decoded: the specification must say so too, and then nothing may be run
+    ucs = undecodable_cases()
+    uprobs = expectations(ucs)
+    ures = []
+    for c in ucs:
+        if c.expected is not None:
+            continue                      # the specification decodes it: not a case of this family
+        res = undecodable_run(tools, c)
+        ures.append(res)
+        if res['problems']:
+            rep.finding('unlisted', {'stage': 'execbody-undecodable', 'scenario': c.name, 'config': c.conf, 'message': c.msg[:600].decode('latin-1'),
+                                     'exit_status': res['status'], 'stderr': res['stderr'], 'what': res['problems'][:4]})
     by_name = {c.name: c for c in cs}
     nbad = 0
     for r in results:
@@ -250,6 +300,9 @@ def stage(rep, tools, whole_part=True):
         'scenarios': len(cs), 'fault_runs': len(faults), 'faults_fired': sum(1 for r in faults if r['fired']),
         'runs_where_the_command_ran': sum(1 for r in faults if r['ran']), 'runs_where_it_did_not': sum(1 for r in faults if not r['ran']),
         'failing_runs': nbad, 'spec_decoding_differs_from_python_codec': notes,
+        'undecodable_bodies': {'cases': len(ucs), 'undecodable_for_the_specification': len(ures), 'failing': len([u for u in ures if u['problems']]),
+                               'rule': 'exec stdin body on a base64 body / part / standard-input delivery that Spec.decodedBody cannot decode: the command '
+                                       'is not run, exit status 1 (75 with -), a diagnostic, the following move is not carried out'},
         'rule': 'exec stdin body (top-level base64 / quoted-printable / identity body, base64 / quoted-printable part inside an attachment '
                 'block, stdin mode)%s with contents of %s bytes on the real binary; every call between the creation of the temporary file and '
                 'the fork is disturbed (write: short, shorthalf, two short counts in a row, EINTR, ENOSPC, ...; other calls: errno row; kernel '
